@@ -128,6 +128,13 @@ theorem C13_count_inv_witness : ¬ (∀ s, Reachable s → s.cnt = s.nFlight) :=
 example : ∃ s, ReachableNF s ∧ s.cnt = 2 :=
   ⟨_, reachableNF_of_run (l := [.spawnW, .spawnW, .start 0, .start 1]) ReachableNF.init (by decide) rfl, rfl⟩
 
+-- a socket write that FAILS (an error that is not the deadline's; either write path) is an ordinary `ReachableNF`
+-- step and still goes through `finishWrite`: afterwards nothing is counted, and the abort of another user is idle
+-- (the pattern of seeded mutant `C13-addrport-write-skips-finish`, which the harness runs on the real mux)
+example : ∃ s, ReachableNF s ∧ s.allDone = true ∧ s.word = 0 ∧ s.rpast = false :=
+  ⟨_, reachableNF_of_run (l := [.spawnW, .start 0, .writeRet 0 .err, .finish 0, .spawnA, .abortCas 0])
+    ReachableNF.init (by decide) rfl, by decide, by decide, by decide⟩
+
 /-
 Full statement (does NOT hold on the unchanged tree, see `C13_deadline_cleared_witness`):
   theorem C13_deadline_cleared {s} (hr : Reachable s) (hq : s.quiescent = true) :
